@@ -980,7 +980,10 @@ class Interp:
                         return v.attrs[name]
                     except Exception:
                         pass
-                raise NoValue(f"the stand-in {v.kind} instance has no value for its declared field {name!r}")
+                # a required field the stand-in was not given: an opaque token (branching on it is UNKNOWN, merely
+                # formatting or passing it on is harmless)
+                v.attrs[name] = Obj("token", {"fmt": f"<{v.kind}.{name}>", "name": f"<{v.kind}.{name}>"})
+                return v.attrs[name]
         raise Raised("AttributeError", node)
 
     # ------------------------------------------------------------------ calls
